@@ -16,6 +16,10 @@ import (
 
 var c02DealVariants = []string{"degree-1", "degree+1", "degree+2", "redeal"}
 
+// c02ShareVariants: the dealer's commitment is kept / re-dealt and ONE recipient gets the negated share or another recipient's
+// share (c03_deal.go).  An honest victim refuses; if a check lets it through and everybody completes, checkSharing judges.
+var c02ShareVariants = []string{"asdealt+negated-share", "asdealt+other-share", "redeal+negated-share"}
+
 func c02DegLabel(alt string) string {
 	switch alt {
 	case "degree-1":
@@ -79,7 +83,7 @@ func (c *ctx) c02DealJudge(p *c03Proto, out *c03Outcome) {
 	c.res.Sample(5, map[string]interface{}{"spec": p.Name, "n": len(p.IDs), "t": cs.Thr, "dealer": cs.Cheater, "dealt": cs.Alt, "outcome": "all honest parties completed"})
 	if len(probs) > 0 {
 		c.res.Violate("property", fmt.Sprintf("C02/%s/dealer-degree=%s/%s", p.Name, c02DegLabel(cs.Alt), c02ProblemClass(probs[0])),
-			fmt.Sprintf("n=%d t=%d: %s deals a consistent polynomial (%s), every honest party completes, but: %s", len(p.IDs), cs.Thr, cs.Cheater, cs.Alt, strings.Join(probs, "; ")), cs)
+			fmt.Sprintf("n=%d t=%d: %s deals (%s), every honest party completes, but: %s", len(p.IDs), cs.Thr, cs.Cheater, cs.Alt, strings.Join(probs, "; ")), cs)
 	}
 }
 
@@ -105,6 +109,9 @@ func (c *ctx) c02Dealers() {
 					pos = 0
 				}
 				cases := c03DealCases(rng, "C02", p, t, false, c02DealVariants, pos)
+				if n >= 3 || c.thorough() {
+					cases = append(cases, c03DealCases(rng, "C02", p, t, false, c02ShareVariants, pos)...)
+				}
 				for _, out := range c03RunAll(p, cases) {
 					runs++
 					c.c02DealJudge(p, out)
@@ -118,7 +125,7 @@ func (c *ctx) c02Dealers() {
 func (c *ctx) c02DealersCMP() {
 	rng := rand.New(rand.NewSource(c.res.Seed*15485863 + 12))
 	shapes := [][2]int{{3, 1}}
-	variants := []string{"degree+1", "degree-1"}
+	variants := []string{"degree+1", "degree-1", "redeal+negated-share"}
 	if c.thorough() {
 		shapes = [][2]int{{3, 1}, {3, 2}, {4, 1}, {2, 0}}
 		variants = c02DealVariants
